@@ -293,6 +293,8 @@ func c1profile3() []*c1pkg {
 	}
 	add("[]*S and map[string]*S and *S in *S", "a := []*S{&S{n: 1}, &S{n: 2, t: \"two\"}}\na = append(a, &S{n: 3, in: a[0]})\na[2].in.n = 9\nfmt.Println(len(a), a[0].n, a[1].t, a[2].in.N(), a[2].in == a[0], a[1].in == nil)\nm := map[string]*S{\"x\": a[1]}\nm[\"x\"].n += 5\nm[\"y\"] = &S{n: m[\"x\"].n}\nfmt.Println(a[1].n, m[\"y\"].N(), m[\"z\"] == nil, len(m))\nt := 0\nfor _, p := range a {\n\tt += p.N()\n}\nfmt.Println(t)\n")
 	add("named types", "type Vec []float64\ntype Reg map[string]int\ntype ID int\ntype Ref = S\nv := Vec{1, 2}\nv = append(v, 3)\nr := Reg{\"a\": 1}\nr[\"b\"] = 2\nvar id ID = 7\nq := &Ref{n: 4}\nfmt.Println(len(v), v[2]/2, len(r), r[\"b\"], id+1, q.N())\n")
+	add("conversion to named slice, map and func types", "type B []byte\ntype IDs []int\ntype Reg map[string]int\ntype Gen func() int\nb := B(\"abc\")\nx := []int{1, 2}\nids := IDs(x)\nids[0] = 7\nr := Reg(map[string]int{\"a\": 1})\nr[\"b\"] = 2\ncnt = 0\ng := Gen(next)\nfmt.Println(len(b), b, string(b), len(ids), ids, x, len(r), r[\"a\"], g(), g())\nu := IDs(nil)\nfmt.Println(u, len(u), u == nil)\nu = append(u, 3)\ny := []int(ids)\nfmt.Println(u, string(B(\"xyz\")), y, Reg(nil) == nil, len(Reg(nil)))\n")
+	add("declarations initialized with nil", "var s []int = nil\nvar m map[string]int = nil\nvar f func() int = nil\nvar bs []byte = nil\nt := []int(nil)\nfmt.Println(s, m, len(s), len(m), s == nil, m == nil, f == nil, t, len(t), t == nil, string(bs)+\"|\")\ns = append(s, 1)\nt = append(t, 2)\nfor range bs {\n\tfmt.Println(\"never\")\n}\nvar s2 []int = []int{4}\nvar m2 map[string]int = map[string]int{\"k\": 1}\nfmt.Println(s, t, s2, m2)\n")
 	add("local type, function literal, local type again", "type pt struct {\n\tx int\n\tname string\n}\na := &pt{x: 3, name: \"pt\"}\nsq := func(v int) int {\n\treturn v * v\n}\nb := &pt{x: sq(4), name: a.name}\nfmt.Println(sq(a.x), a.name)\nfmt.Println(b.x, b.name)\ntype pair struct {\n\tl *pt\n\tr *pt\n}\nc := &pair{l: a, r: b}\nfmt.Println(c.l.x+c.r.x, sq(c.r.x))\n")
 	add("NaN and infinities in comparisons", "z := 0.0\nn := z / z\ni := 1 / z\nfmt.Println(n < 1, n <= 1, n > 1, n >= 1, n == n, n != n, 1 <= n, 1 >= n)\nfmt.Println(i > 1e308, -i < 0, i == i, i >= i, i <= -i)\nlo, hi, v := 0.0, 10.0, n\nif v >= lo && v <= hi {\n\tfmt.Println(\"in range\")\n} else {\n\tfmt.Println(\"out of range\")\n}\n")
 	add("op= and ++ evaluate the operands of their target once", "cnt = 0\nobjN = 0\nm := map[int]int{}\nm[next()] += 5\nm[next()]++\ns := []int{0, 0, 0, 0}\ns[next()] += 7\ns[next()-1]--\nobj().n += 4\nobj().n++\nobj().t += \"x\"\nfmt.Println(cnt, len(m), m[1], m[2], s, objN, objs[0].n, objs[1].n, objs[2].t)\n")
